@@ -2,6 +2,7 @@ import MirVerif.Props.C02
 import MirVerif.Lemmas.GenTable
 import MirVerif.Lemmas.GenPow2
 import MirVerif.Lemmas.BridgeC01
+import MirVerif.Lemmas.GenExt
 /-! # C01 — generated code behaves like the interpreter: theorems about the optimizer fragments
 whose tables/texts are regenerated from mir-gen.c and mir.c on every run.  (The pipeline as a whole —
 SSA, LICM, RA, combine, encoder — is decided by the engine correspondence, see DESIGN.md.) -/
@@ -167,6 +168,62 @@ and in low-32-bit arithmetic -/
 theorem addr_reassoc (r c1 c2 : W64) :
     (r + c1) + c2 = r + (c1 + c2) ∧ lo32 ((r + c1) + c2) = lo32 (r + (c1 + c2)) := by
   rw [BitVec.add_assoc]; exact ⟨rfl, rfl⟩
+
+/-- `copy_prop`'s extension-chain rewrites (mir-gen.c): for all widths in {8,16,32} and all
+sign combinations, `[u]ext<w> ([u]ext<w2> x) = [u]ext<w> x` when `w ≤ w2`, and `= [u]ext<w2> x` when
+`w2 < w` unless the inner extension is signed and the outer unsigned — the one pair the code excludes,
+and rightly so (`ext_chain_excluded_pair`). -/
+theorem ext_chain_narrow (w w2 : Nat) (hw : w = 8 ∨ w = 16 ∨ w = 32) (hw2 : w2 = 8 ∨ w2 = 16 ∨ w2 = 32)
+    (h : w ≤ w2) (s s2 : Bool) (x : W64) : macroExt w s (macroExt w2 s2 x) = macroExt w s x := by
+  rcases hw with rfl | rfl | rfl <;> rcases hw2 with rfl | rfl | rfl <;> cases s <;> cases s2 <;>
+    first
+      | (exfalso; omega; done)
+      | exact ext_8s_of_8s x
+      | exact ext_8s_of_8u x
+      | exact ext_8s_of_16s x
+      | exact ext_8s_of_16u x
+      | exact ext_8s_of_32s x
+      | exact ext_8s_of_32u x
+      | exact ext_8u_of_8s x
+      | exact ext_8u_of_8u x
+      | exact ext_8u_of_16s x
+      | exact ext_8u_of_16u x
+      | exact ext_8u_of_32s x
+      | exact ext_8u_of_32u x
+      | exact ext_16s_of_16s x
+      | exact ext_16s_of_16u x
+      | exact ext_16s_of_32s x
+      | exact ext_16s_of_32u x
+      | exact ext_16u_of_16s x
+      | exact ext_16u_of_16u x
+      | exact ext_16u_of_32s x
+      | exact ext_16u_of_32u x
+      | exact ext_32s_of_32s x
+      | exact ext_32s_of_32u x
+      | exact ext_32u_of_32s x
+      | exact ext_32u_of_32u x
+
+theorem ext_chain_widen (w w2 : Nat) (hw : w = 8 ∨ w = 16 ∨ w = 32) (hw2 : w2 = 8 ∨ w2 = 16 ∨ w2 = 32)
+    (h : w2 < w) (s s2 : Bool) (hs : s = true ∨ s2 = false) (x : W64) :
+    macroExt w s (macroExt w2 s2 x) = macroExt w2 s2 x := by
+  rcases hw with rfl | rfl | rfl <;> rcases hw2 with rfl | rfl | rfl <;> cases s <;> cases s2 <;>
+    first
+      | (exfalso; omega; done)
+      | (exfalso; rcases hs with h1 | h1 <;> cases h1 <;> done)
+      | exact ext_16s_of_8s x
+      | exact ext_16s_of_8u x
+      | exact ext_16u_of_8u x
+      | exact ext_32s_of_8s x
+      | exact ext_32s_of_8u x
+      | exact ext_32s_of_16s x
+      | exact ext_32s_of_16u x
+      | exact ext_32u_of_8u x
+      | exact ext_32u_of_16u x
+
+theorem ext_chain_excluded_pair :
+    ∃ x : W64, macroExt 16 false (macroExt 8 true x) ≠ macroExt 8 true x ∧
+               macroExt 16 false (macroExt 8 true x) ≠ macroExt 16 false x :=
+  ⟨0x80, by decide⟩
 
 /-- the pinned source texts (GVN macros and getters, gen_int_log2, power2_int_op,
 transform_mul_div, canonic_mem_type) are the reviewed ones -/
